@@ -328,6 +328,37 @@ def run(P, R, tier):
     from rules import common as _cm
     _cm.array_token(P, R, 'C11.k')
     _cm.read_path_not_memoised(P, R, 'C11.e')
+    # datasets come back in the order the caller listed them: the glob expansion (fsspec returns the SORTED SET of matches) is applied entry by entry, inside
+    # the loop over the requested paths, never to the list as a whole
+    rpd = P.func('spatialpandas.io.parquet', 'read_parquet_dask')
+    epf = P.mods['spatialpandas.io.parquet'].funcs.get('_expand_path')
+    nexp = 0
+    for c_ in astq.own_calls(rpd):
+        if epf is not None and astq.is_call_to(P, rpd, c_, epf) and c_.args:
+            nexp += 1
+            lp_ = c_
+            loopvar = None
+            while getattr(lp_, '_parent', None) is not None and lp_._parent is not rpd.node:
+                lp_ = lp_._parent
+                if isinstance(lp_, ast.For) and isinstance(lp_.target, ast.Name):
+                    loopvar = lp_.target.id
+                    break
+            a0 = c_.args[0]
+            per_entry = loopvar is not None and isinstance(a0, ast.Name) and (a0.id == loopvar or loopvar in astq.sources(rpd, a0))
+            R.check(per_entry, 'C11.d', rpd, c_, 'glob patterns are expanded one requested path at a time (the datasets keep the order they were listed in)',
+                    f'`{norm(c_)[:70]}` expands the whole list of paths at once: the expansion is a sorted set, so the datasets are concatenated in lexicographic order instead of the requested one '
+                    '(and a path listed twice is read once)', construct='read_parquet_dask: per-entry glob expansion')
+    R.floor('C11.d', 'glob expansions in read_parquet_dask', nexp, 1)
+    # the projection the caller asked for reaches the per-piece reads as given (the index column is filtered for dask's meta only)
+    rebound = [a for a in astq.assignments(pr, 'columns')] if 'columns' in pr.params else []
+    R.check(not rebound, 'C11.c', pr, rebound[0][1] if rebound and isinstance(rebound[0][1], ast.AST) else None, 'the requested columns are not rewritten before the per-piece reads',
+            '`columns` is re-assigned in _perform_read_parquet_dask: the per-piece reads receive the rewritten projection, so a data column that happens to be called like the index '
+            '(hilbert_distance after reset_index) silently disappears from the frame', construct='_perform_read_parquet_dask: columns passed through')
+    for c_ in astq.own_calls(pr):
+        v_ = astq.arg_of(c_, kw='columns')
+        if v_ is not None and isinstance(c_.func, ast.Call) and 'delayed' in norm(c_.func.func):
+            R.check(isinstance(v_, ast.Name) and v_.id == 'columns', 'C11.c', pr, c_, 'every per-piece read receives the caller\'s `columns`',
+                    f'the per-piece reads receive `columns={norm(v_)}` instead of the caller\'s projection', construct='per-piece columns')
     # every path the caller's glob matches is read, except metadata files: the filter of the glob expansion may only EXCLUDE names (the `_metadata` family); a
     # filter that keeps a list of known extensions drops datasets and files that are named differently (`tiles_2020`, `data.pq`), silently
     ep = P.mods['spatialpandas.io.parquet'].funcs.get('_expand_path')
